@@ -16,6 +16,13 @@ structure Wrapper where
   decor : Decoration := {}
   html : HtmlCfg := {}
 
+/-- `(*TextTable).SetDecorationNamed(n)` (texttable/style.go): the wrapper takes whatever the registry
+    holds under `n` — the empty decoration for a name never registered — and the call reports an error
+    exactly in that case.  (The wrapper is changed either way: a later render then refuses.) -/
+def Wrapper.setDecorationNamed (wr : Wrapper) (reg : Registry) (n : Bytes) : Wrapper × Option ErrClass :=
+  let d := reg.named n
+  ({ wr with decor := d }, if d = emptyDecoration then some .noDecoration else none)
+
 structure Ext where
   dw : Measure
   js : JsonStr
